@@ -401,6 +401,9 @@ func (gen *Generator) GenerateShortCircuit(or bool, args []Sexp) error {
 
 	for i := size - 2; i >= 0; i-- {
 		subgen = gen.NewSubGenerator()
+		// not in tail position, but inside the same scopes
+		subgen.scopes = gen.scopes
+		subgen.funcname = gen.funcname
 		if err := subgen.Generate(args[i]); err != nil {
 			return err
 		}
